@@ -13,6 +13,8 @@ package bcl
 //@   requires [C15] destination_is_a_settable_struct: rvalid(v) && rkind(v) == 25 && rsettable(v)
 //@   ensures [C15] fresh_destination_leaves_the_target_alone: rfresh(v) ==> g.tsets == old(g.tsets)
 //@   ensures assignments_only_grow: g.assigned >= old(g.assigned) && g.tsets >= old(g.tsets)
+//@   assert [C05] named_struct_type_is_matched_against_the_block_type: at unsnakeEq#1: $orig == tname(rtype(v)) && $snake == block.Type
+//@   assert [C05] tags_are_collected_for_every_field: at slot.(reflect.Type).Field: $i == i
 //@   modifies g.tsets, g.assigned
 //@   loop 1 invariant 0 <= i && g.tsets == old(g.tsets) && g.assigned == old(g.assigned) && tagged != nil
 //@   loop 1 invariant forall k string :: has(tagged, k) ==> 0 <= tagged[k] && tagged[k] < tnumfield(t)
@@ -27,8 +29,26 @@ package bcl
 //@   ensures [C15] a_plain_value_is_stored_exactly_once_or_reported: !is_block(x) ==> (result == nil ? g.assigned == old(g.assigned) + 1 : g.assigned == old(g.assigned))
 //@   ensures assignments_only_grow: g.assigned >= old(g.assigned) && g.tsets >= old(g.tsets)
 //@   modifies g.tsets, g.assigned, filled
+//@   assert [C05] a_tag_takes_precedence_over_the_name_rule: at slot.(reflect.Type).FieldByNameFunc: !has(tagged, old(name))
+//@   assert [C05] tagged_key_selects_the_tagged_field: at slot.(reflect.Type).Field: has(tagged, old(name)) && $i == tagged[old(name)]
+//@   assert [C05] child_block_key_is_matched_by_its_type_part: at unsnakeMatcher#1: $snake == scutbefore(old(name), ".")
 //@   assert [C15] stores_the_block_value_unchanged: at Set#1: $x == rvalof(x)
 //@   assert [C15] stores_only_into_exported_fields: at Set#1: f.PkgPath == ""
+//
+// the matching rule: equal ignoring case after removing the underscores of the BCL key
+//@ slot strPred (s string) bool
+//@   modifies nothing
+//@ func unsnakeMatcher
+//@   callslot result strPred
+//@   assert [C05] underscores_of_the_key_are_removed: at ReplaceAll#1: $s == snake && $old == "_" && $new == ""
+//@   ensures result != nil
+//@   modifies nothing
+//@ func unsnakeMatcher$1
+//@   ensures [C05] equal_ignoring_case_to_the_stripped_key: result == sfoldeq(s, u)
+//@   modifies nothing
+//@ func unsnakeEq
+//@   assert [C05] the_key_side_is_the_one_stripped: at unsnakeMatcher#1: $snake == snake
+//@   modifies nothing
 //
 //@ func copyBlocks
 //@   use tassignable_reflexive
@@ -36,6 +56,8 @@ package bcl
 //@   ensures [C15] non_pointer_target_is_an_error: rkind(rvalof(target)) != 22 ==> result != nil
 //@   ensures [C15] slice_target_untouched_on_error: result != nil && istype(binding, SliceBinding) ==> g.tsets == old(g.tsets)
 //@   ensures [C15] slice_target_replaced_once_on_success: result == nil && istype(binding, SliceBinding) ==> g.tsets == old(g.tsets) + 1
+//@   assert [C05] blocks_are_copied_in_order_into_the_new_slice: at copyBlock#2: $block == blocks[rangeindex] && $v == rindexof(newSlice, rangeindex)
+//@   assert [C05] previous_elements_are_discarded: at Set#1: $x == newSlice && rlen(newSlice) == len(b.Value) && rfresh(newSlice)
 //@   loop 1 invariant 0 - 1 <= rangeindex && rangeindex < len(blocks) && g.tsets == old(g.tsets) && rlen(newSlice) == len(blocks) && rfresh(newSlice) && rvalid(newSlice) && rkind(newSlice) == 23 && !rro(newSlice) && tkind(telem(rtype(newSlice))) == 25
 //
 //@ func Bind
